@@ -749,9 +749,10 @@ static void zmDivMont2(word b[], const word divident[], const word a[],
 
 static size_t zmDivMont2_deep(size_t n)
 {
-	return utilMax(2,
-		zmInvMont2_deep(n),
-		zmMulMont2_deep(n));
+	return O_OF_W(n) +
+		utilMax(2,
+			zmInvMont2_deep(n),
+			zmMulMont2_deep(n));
 }
 
 void zmMontCreate(qr_o* r, const octet mod[], size_t no, size_t l, void* stack)
